@@ -325,10 +325,13 @@ bool Instance::eval(const size_t argc, char* const* argv) {
                 continue;
             }
         }
-        // hex string?
-        if (!(vlen & 1)) {
+        // hex string? (with or without the 0x prefix that the warning above recommends)
+        const char* hex = v;
+        size_t hexlen = vlen;
+        if (hexlen > 2 && hex[0] == '0' && hex[1] == 'x') { hex += 2; hexlen -= 2; }
+        if (!(hexlen & 1)) {
             std::vector<unsigned char> pushData;
-            if (TryHex(v, pushData)) {
+            if (TryHex(hex, pushData)) {
                 script << pushData;
                 continue;
             }
